@@ -88,6 +88,7 @@ def run(ctx):
     authhook.request_context(ctx, r8)
     authhook.auth_hook(ctx, r8)
     authhook.identity_headers(ctx, r8)
+    authhook.scoping_identity_from_environment(ctx, r8)
     r9 = ctx.rule('R9', 'an event fires the triggers of its own project and '
                   'the triggers that are themselves public, nothing else',
                   'DT (element predicate)')
